@@ -1,6 +1,7 @@
 package cli
 
 import (
+	"bytes"
 	"fmt"
 	"io"
 	"math/rand"
@@ -8,7 +9,10 @@ import (
 	"path/filepath"
 	"sort"
 	"strings"
+	"sync"
+	"syscall"
 	"testing"
+	"time"
 
 	"github.com/relab/hotstuff"
 	"github.com/relab/hotstuff/twins"
@@ -236,6 +240,7 @@ func TestVerifC18(t *testing.T) {
 	c18CliPartial(v, dir, st)
 	c18CliRun(v, dir, st)
 	c18CliRunJSONConcurrent(v, dir)
+	c18CliRunSlowOutput(v, dir)
 	v.Close("cli: `twins generate` / `twins run` invocations per (settings, views, shuffle, --scenarios, input); non-trivial = at least 2 options and 2 views")
 }
 
@@ -566,6 +571,112 @@ func c18CliRunJSONConcurrent(v *verifOut, dir string) {
 			meta["written"], meta["executed_twice"], meta["missing"] = len(out), twice, missing
 			v.Oracle(twice == 0 && missing == 0 && len(out) == len(input), "cli.run:concurrent-json-run-differs-from-input",
 				fmt.Sprintf("`twins run --input` with %d workers: %d scenarios in the file, %d executed and logged, %d twice, %d missing", w, len(input), len(out), twice, missing), meta)
+		}
+	}
+}
+
+// `twins run --concurrency N --output <slow pipe> --log-all`: the output is a named pipe whose reader is slow
+// (a slow disk, a full pipe), so the workers queue up on the shared JSON writer; what arrives at the other
+// end must be every executed (= announced) scenario exactly once.
+func c18CliRunSlowOutput(v *verifOut, dir string) {
+	for ci, c := range [][4]uint8{{3, 0, 2, 3}, {4, 1, 2, 2}} {
+		for _, w := range []uint{3, 8} {
+			nn, nt, p, views := c[0], c[1], c[2], c[3]
+			settings := twins.Settings{NumNodes: nn, NumTwins: nt, Partitions: p, Views: views, Ticks: 2}
+			g := twins.NewGenerator(c18CliNop{}, settings)
+			announced := g.Remaining()
+			var input []twins.Scenario
+			for {
+				s, err := g.NextScenario()
+				if err != nil {
+					break
+				}
+				input = append(input, s)
+			}
+			meta := map[string]any{"mode": "run --log-all --output <slow pipe>", "concurrency": w, "announced": announced,
+				"num_nodes": nn, "num_twins": nt, "partitions": p, "views": views}
+			fifo := filepath.Join(dir, fmt.Sprintf("slow-%d-%d.fifo", ci, w))
+			if err := syscall.Mkfifo(fifo, 0o600); err != nil {
+				v.Note("cannot create a named pipe, slow-output runs skipped: " + err.Error())
+				return
+			}
+			var doc bytes.Buffer
+			var rd sync.WaitGroup
+			rd.Add(1)
+			go func() {
+				defer rd.Done()
+				f, err := os.Open(fifo)
+				if err != nil {
+					return
+				}
+				defer f.Close()
+				chunk := make([]byte, 2048)
+				for {
+					k, err := f.Read(chunk)
+					doc.Write(chunk[:k])
+					if err != nil {
+						return
+					}
+					time.Sleep(500 * time.Microsecond)
+				}
+			}()
+			numReplicas, numTwins, numPartitions, numViews = nn, nt, p, views
+			numScenarios, numScenariosPerFile, numTicks = 0, 0, 2
+			shuffle, randSeed, twinsDest, twinsSrc = false, 0, fifo, ""
+			twinsConsensus, logAll, concurrency = "chainedhotstuff", true, w
+			msg := c18CliQuiet(twinsRun)
+			numScenarios, logAll, concurrency = 0, false, 1
+			done := make(chan struct{})
+			go func() { rd.Wait(); close(done) }()
+			select {
+			case <-done:
+			case <-time.After(20 * time.Second):
+				v.Note("slow-output run: the pipe reader did not see the end of the output")
+				continue
+			}
+			v.Count("cli_run_slow_output")
+			v.Seen(fmt.Sprintf("cli slow %d %d", ci, w), true, meta)
+			if msg != "" {
+				meta["panic"] = msg
+				v.Oracle(false, "cli.run:panic", "`twins run` panics", meta)
+				continue
+			}
+			src, err := twins.FromJSON(bytes.NewReader(doc.Bytes()))
+			if err != nil {
+				meta["error"] = err.Error()
+				v.Oracle(false, "cli.run:unreadable-output", "the JSON written by concurrent workers cannot be read back: "+err.Error(), meta)
+				continue
+			}
+			want, have := map[string]int{}, map[string]int{}
+			for _, s := range input {
+				want[c18CliScenKey(s)]++
+			}
+			cnt, readErr := 0, ""
+			for {
+				s, err := src.NextScenario()
+				if err != nil {
+					if err != io.EOF {
+						readErr = err.Error()
+					}
+					break
+				}
+				cnt++
+				have[c18CliScenKey(s)]++
+			}
+			twice, missing := 0, 0
+			for k, x := range have {
+				if x > want[k] {
+					twice += x - want[k]
+				}
+			}
+			for k, x := range want {
+				if have[k] < x {
+					missing += x - have[k]
+				}
+			}
+			meta["written"], meta["logged_twice_or_foreign"], meta["missing"], meta["read_error"] = cnt, twice, missing, readErr
+			v.Oracle(readErr == "" && twice == 0 && missing == 0 && int64(cnt) == announced, "cli.run:logged-scenarios-differ-from-executed",
+				fmt.Sprintf("`twins run --log-all` with %d workers and a slow output: %d scenarios executed, %d logged, %d of them twice or never executed, %d missing %s", w, announced, cnt, twice, missing, readErr), meta)
 		}
 	}
 }
